@@ -16,12 +16,16 @@ import (
 	"fmt"
 	"os"
 	"path/filepath"
+	"runtime"
 	"runtime/pprof"
 	"strings"
 	"sync"
 	"sync/atomic"
 	"time"
 
+	"mosn.io/api"
+	"mosn.io/mosn/pkg/types"
+	"mosn.io/mosn/pkg/upstream/cluster"
 	"mosn.io/mosn/pkg/verifhook"
 
 	"verif/harness/lab"
@@ -30,6 +34,7 @@ import (
 func init() {
 	lab.Register("c10-engine", c10Engine)
 	lab.Register("c10-probe", c10Probe)
+	lab.Register("c10-hunt", c10Hunt)
 }
 
 func c10ClusterExtra(name string) jmap {
@@ -59,7 +64,7 @@ func c10Routes(proto string) []routeSpec {
 }
 
 func c10Engine(c *lab.Ctx) {
-	c.Rule("running MOSN with counted breaker resources; histories of mixed outcomes at concurrency 8 x 3 protocols; continuous sign sampling, conservation at quiescence, a go-away connection closed with three requests in flight on it, bursts of 12 simultaneous admissions at max_requests=3, threshold trip tests (max_requests=3, max_retries=1); distinct = (protocol, route, plan class, outcome) + book signatures")
+	c.Rule("running MOSN with counted breaker resources; histories of mixed outcomes at concurrency 8 x 3 protocols; continuous sign sampling, conservation at quiescence, a go-away connection closed with three requests in flight on it, bursts of 12 simultaneous admissions at max_requests=3, 5xx answers that arrive 0..20 ms before the global timeout of a retrying route, threshold trip tests (max_requests=3, max_retries=1); distinct = (protocol, route, plan class, outcome) + book signatures")
 	e, err := newEngine(c, engineProtos, c10Routes, c10ClusterExtra, nil)
 	if err != nil {
 		c.Require("mosn started", false, err.Error())
@@ -138,11 +143,17 @@ func c10Engine(c *lab.Ctx) {
 						tok := fmt.Sprintf("b%d-%s-%d", c.Batch, proto, atomic.AddInt64(&tokenN, 1))
 						r := reqFor(proto, cs.key, tok, cs.plan)
 						r.Body = crng.Bytes(crng.PickInt(0, 10, 3000))
-						if crng.Chance(1, 10) {
+						if crng.Chance(1, 10) && os.Getenv("VERIF_C10_NOIMPATIENT") == "" {
 							r.Timeout = time.Duration(20+crng.Intn(150)) * time.Millisecond
 						}
 						c.Case("c10 round=%d %s route=%s plan=%s token=%s", round, proto, cs.key, cs.plan, tok)
 						ev := cl.do(r)
+						if ev.Kind == "open" && r.Timeout == 0 {
+							// 15 s without any outcome although every configured timeout is far shorter: remembered for the witness
+							c10Silent.Lock()
+							c10SilentList = append(c10SilentList, fmt.Sprintf("round %d %s route=%s plan=%s token=%s body=%d attempts=%d", round, proto, cs.key, cs.plan, tok, len(r.Body), len(e.log.upsFor(tok))))
+							c10Silent.Unlock()
+						}
 						atomic.AddInt64(&hist, 1)
 						c.Eval(1)
 						c.Distinct(fmt.Sprintf("%s|%s|%s|%s%d", proto, cs.key, planClass(cs.plan), ev.Kind, ev.Status))
@@ -166,6 +177,11 @@ func c10Engine(c *lab.Ctx) {
 	for _, proto := range engineProtos {
 		c10Burst(c, e, proto)
 		c10Conservation(c, e, clusters, "after admission bursts "+proto, false)
+	}
+	// (2d) a timeout that fires while a retry is being set up
+	for _, proto := range engineProtos {
+		c10Edge(c, e, proto)
+		c10Conservation(c, e, clusters, "after timeouts at the edge of a retry "+proto, false)
 	}
 	// (3) threshold tests, one protocol at a time, nothing else running
 	for _, proto := range engineProtos {
@@ -218,11 +234,35 @@ func c10Conservation(c *lab.Ctx, e *engine, clusters []string, when string, peer
 		c.Inconclusive("books not stable within the bound")
 	}
 	c.Eval(1)
+	if os.Getenv("VERIF_C10_TRACE") != "" {
+		pools := ""
+		cluster.VerifRangePools(func(p api.ProtocolName, addr string, pool types.ConnectionPool) {
+			if b, ok := pool.(poolBooks); ok {
+				idle, total := b.VerifBooks()
+				if idle != total {
+					pools += fmt.Sprintf(" %s/%s idle=%d total=%d;", p, addr, idle, total)
+				}
+			}
+		})
+		fmt.Fprintf(os.Stderr, "TRACE books %s t=%d: %v pools-with-leases:%s\n", when, time.Now().UnixNano()/1e6%1000000, nonZero(books), pools)
+		for k, v := range books {
+			if strings.HasSuffix(k, "request_active") && v != 0 {
+				if f, err := os.Create(filepath.Join(c.Out, fmt.Sprintf("goroutines-books-%d.txt", time.Now().UnixNano()))); err == nil {
+					fmt.Fprintf(f, "%s: %s = %d\n", when, k, v)
+					fmt.Fprintf(f, "proxy streams never cleaned (now=%d): %v\n\n", time.Now().UnixNano()/1e6%1000000, c10Trace.neverCleaned())
+					fmt.Fprintf(f, "HTTP/1 upstream connections with unbalanced request books: %v\n\n", c10Trace.h1Unbalanced())
+					_ = pprof.Lookup("goroutine").WriteTo(f, 2)
+					f.Close()
+				}
+				break
+			}
+		}
+	}
 	for k, v := range books {
 		switch {
 		case strings.HasSuffix(k, "request_active") && v != 0:
 			c.Violation("request-books-zero-when-idle", "C10/nonzero-at-quiescence/gauge/"+gaugeKind(k),
-				fmt.Sprintf("%s: no exchange is open but %s = %d", when, k, v), map[string]interface{}{"when": when, "books": nonZero(books)})
+				fmt.Sprintf("%s: no exchange is open but %s = %d", when, k, v), map[string]interface{}{"when": when, "books": nonZero(books), "requests_that_got_no_outcome_in_15s": c10SilentCopy()})
 		case peersClosed && strings.HasPrefix(k, "upstream") && strings.HasSuffix(k, "connection_active") && v != 0:
 			c.Violation("connection-books-match-sockets", "C10/nonzero-after-peers-closed/gauge/"+gaugeKind(k),
 				fmt.Sprintf("%s: %s = %d", when, k, v), map[string]interface{}{"when": when, "books": nonZero(books)})
@@ -279,7 +319,7 @@ func c10Conservation(c *lab.Ctx, e *engine, clusters []string, when string, peer
 			}
 			if v != 0 {
 				c.Violation("request-books-zero-when-idle", "C10/nonzero-at-quiescence/breaker/"+k,
-					fmt.Sprintf("%s: no exchange is open but breaker resource %s of cluster %s = %d", when, k, cl, v), map[string]interface{}{"when": when, "cluster": cl, "resource": k, "value": v})
+					fmt.Sprintf("%s: no exchange is open but breaker resource %s of cluster %s = %d", when, k, cl, v), map[string]interface{}{"when": when, "cluster": cl, "resource": k, "value": v, "requests_that_got_no_outcome_in_15s": c10SilentCopy()})
 			}
 		}
 	}
@@ -367,6 +407,37 @@ func c10GoAwayInflight(c *lab.Ctx, e *engine, proto string) {
 				fmt.Sprintf("%s: after an upstream connection went away with requests in flight, a new request to the same cluster ended as %s %d %s", proto, ev2.Kind, ev2.Status, ev2.Err), nil)
 		}
 	}
+}
+
+// c10Edge: route "edge" has a 400 ms global timeout, retries on 5xx and no per-try timeout. The first attempt is answered with a
+// 503 after 380..400 ms, i.e. the retry is being set up (the proxy waits 10 ms before it re-sends) when the global timeout fires;
+// the second attempt's upstream never answers. Whatever the client gets, the second attempt must not outlive the request: the
+// conservation check that follows finds it in the request books and in the pools.
+func c10Edge(c *lab.Ctx, e *engine, proto string) {
+	c.Case("c10 timeouts at the edge of a retry %s", proto)
+	var wg sync.WaitGroup
+	var n int64
+	for ci := 0; ci < 8; ci++ {
+		wg.Add(1)
+		go func(ci int) {
+			defer wg.Done()
+			cl := e.newClient(proto, fmt.Sprintf("%s-edge-%d", proto, ci))
+			defer cl.close()
+			for rep := 0; rep < c.Pick(2, 6); rep++ {
+				for d := 380; d <= 400; d += 2 {
+					tok := fmt.Sprintf("edge-%d-%s-%d", c.Batch, proto, atomic.AddInt64(&n, 1))
+					ev := cl.do(reqFor(proto, "edge", tok, fmt.Sprintf("d%d:s503|stall", d)))
+					c.Eval(1)
+					c.Distinct(fmt.Sprintf("edge|%s|%s%d|attempts=%d", proto, ev.Kind, ev.Status, len(e.log.upsFor(tok))))
+					c.Count(fmt.Sprintf("edge-outcome:%s:%s%d/attempts=%d", proto, ev.Kind, ev.Status, len(e.log.upsFor(tok))), 1)
+					if ev.Kind != "response" {
+						cl.close()
+					}
+				}
+			}
+		}(ci)
+	}
+	wg.Wait()
 }
 
 // c10Burst: 12 clients on connections of their own are released by a barrier at the same instant against a cluster that admits 3
@@ -511,6 +582,122 @@ func c10Probe(c *lab.Ctx) {
 	c.Eval(1)
 }
 
+// c10Hunt (debug, `vworker c10-hunt`): one (route, plan) category at a time at concurrency 8 with 10% impatient clients; prints the
+// categories after which request books stay non-zero.
+func c10Hunt(c *lab.Ctx) {
+	e, err := newEngine(c, engineProtos, c10Routes, c10ClusterExtra, nil)
+	if err != nil {
+		fmt.Println("start:", err)
+		return
+	}
+	type rp struct{ key, plan string }
+	var cases []rp
+	for _, p := range append(append([]string{}, c03Plans...), "ok:goaway", "s503:goaway") {
+		cases = append(cases, rp{"fast", p})
+	}
+	for _, p := range c03RetryPlans {
+		cases = append(cases, rp{"retry", p})
+	}
+	for _, p := range c03Retry0Plans {
+		cases = append(cases, rp{"retry0", p})
+	}
+	for _, p := range c03MixPlans {
+		cases = append(cases, rp{"mix", p}, rp{"mixon", p})
+	}
+	rng := c.Rand("hunt")
+	n := int64(0)
+	// per proxy stream id: the hook points it passed
+	var tmu sync.Mutex
+	trace := map[uint64][]string{}
+	rec := func(name string, id uint64) {
+		tmu.Lock()
+		trace[id] = append(trace[id], fmt.Sprintf("%s@%d", strings.TrimPrefix(name, "proxy."), time.Now().UnixNano()/1e6%1000000))
+		tmu.Unlock()
+	}
+	for _, hp := range []string{"proxy.newActiveStream", "proxy.cleanStream", "proxy.giveStream", "proxy.downstream.OnResetStream", "proxy.waitNotify", "proxy.waitNotify.woken",
+		"proxy.upstream.OnReceive", "proxy.upstream.OnResetStream", "proxy.globalTimer.beforeCAS", "proxy.perTryTimer.beforeCAS"} {
+		verifhook.Set(hp, rec)
+	}
+	c10Trace.install()
+	for _, hp := range []string{"proxy.newActiveStream", "proxy.cleanStream", "proxy.giveStream", "proxy.downstream.OnResetStream", "proxy.waitNotify", "proxy.waitNotify.woken",
+		"proxy.upstream.OnReceive", "proxy.upstream.OnResetStream", "proxy.globalTimer.beforeCAS", "proxy.perTryTimer.beforeCAS",
+		"DBG.doRetry.start", "DBG.doRetry.slept", "DBG.doRetry.sent", "DBG.onUpstreamReset.UpstreamGlobalTimeout", "DBG.onResponseTimeout", "DBG.appendHeaders.skipped", "DBG.resetStream.nosender", "DBG.resetStream.sender"} {
+		verifhook.Set(hp, rec)
+	}
+	stuck := func() {
+		tmu.Lock()
+		defer tmu.Unlock()
+		for id, evs := range trace {
+			cleaned := false
+			for _, e := range evs {
+				if strings.HasPrefix(e, "cleanStream@") {
+					cleaned = true
+				}
+			}
+			if !cleaned {
+				fmt.Printf("HUNT   stream %d never cleaned: %v\n", id, evs)
+			}
+		}
+	}
+	if os.Getenv("VERIF_HUNT_EDGE") != "" {
+		cases = nil
+		for d := 380; d <= 400; d += 2 {
+			cases = append(cases, rp{"edge", fmt.Sprintf("d%d:s503|stall", d)})
+		}
+	}
+	onlyProto, onlyRoute := os.Getenv("VERIF_HUNT_PROTO"), os.Getenv("VERIF_HUNT_ROUTE")
+	for _, proto := range engineProtos {
+		if onlyProto != "" && proto != onlyProto {
+			continue
+		}
+		for _, cs := range cases {
+			if onlyRoute != "" && cs.key != onlyRoute {
+				continue
+			}
+			tmu.Lock()
+			trace = map[uint64][]string{}
+			tmu.Unlock()
+			var wg sync.WaitGroup
+			for ci := 0; ci < 8; ci++ {
+				wg.Add(1)
+				crng := rng.Fork()
+				go func(ci int, crng *lab.Rand) {
+					defer wg.Done()
+					cl := e.newClient(proto, fmt.Sprintf("hunt-%d", ci))
+					defer cl.close()
+					for k := 0; k < 40; k++ {
+						r := reqFor(proto, cs.key, fmt.Sprintf("h%d", atomic.AddInt64(&n, 1)), cs.plan)
+						r.Body = crng.Bytes(crng.PickInt(0, 10, 3000))
+						if crng.Chance(1, 10) {
+							r.Timeout = time.Duration(20+crng.Intn(150)) * time.Millisecond
+						}
+						ev := cl.do(r)
+						if ev.Kind == "open" || ev.Kind == "closed" {
+							cl.close()
+						}
+					}
+				}(ci, crng)
+			}
+			wg.Wait()
+			books, _ := e.quiesce(4 * time.Second)
+			if nz := nonZeroReq(books); nz != "" {
+				fmt.Printf("HUNT %s route=%s plan=%-20s LEAK %s breaker=%v\n", proto, cs.key, cs.plan, nz, breakerBooks("cl-"+proto))
+				stuck()
+				fmt.Printf("HUNT   http1 unbalanced: %v\n", c10Trace.h1Unbalanced())
+				fmt.Printf("HUNT   traced streams: %d; hook counts new=%d clean=%d\n", len(trace), verifhook.Count("proxy.newActiveStream"), verifhook.Count("proxy.cleanStream"))
+				tmu.Lock()
+				for id, evs := range trace {
+					fmt.Printf("HUNT   seq %d: %v\n", id, evs)
+				}
+				tmu.Unlock()
+			} else {
+				fmt.Printf("HUNT %s route=%s plan=%-20s clean\n", proto, cs.key, cs.plan)
+			}
+		}
+	}
+	c.Eval(1)
+}
+
 func nonZeroReq(b map[string]int64) string {
 	out := ""
 	for k, v := range b {
@@ -569,16 +756,109 @@ func c10RetryThreshold(c *lab.Ctx, e *engine, proto string) {
 	}
 }
 
+var (
+	c10Silent     sync.Mutex
+	c10SilentList []string
+)
+
+func c10SilentCopy() []string {
+	c10Silent.Lock()
+	defer c10Silent.Unlock()
+	return append([]string(nil), c10SilentList...)
+}
+
 // c10Trace: optional diagnosis (VERIF_C10_TRACE=1): per multiplex-pool connection the sequence of gauge increments and
 // connection events, from the hook points in the pool; never part of a verdict.
 type c10TraceT struct {
-	mu sync.Mutex
-	ev map[uint64][]string
+	mu      sync.Mutex
+	ev      map[uint64][]string
+	streams map[uint64][]string
+	h1      map[uint64][]string
+}
+
+// h1Unbalanced: HTTP/1 upstream connections with more request increments than decrements (last 6 events each)
+func (t *c10TraceT) h1Unbalanced() map[uint64][]string {
+	t.mu.Lock()
+	defer t.mu.Unlock()
+	out := map[uint64][]string{}
+	for id, evs := range t.h1 {
+		n := 0
+		for _, e := range evs {
+			if strings.HasPrefix(e, "inc@") {
+				n++
+			} else {
+				n--
+			}
+		}
+		if n != 0 {
+			if len(evs) > 6 {
+				evs = evs[len(evs)-6:]
+			}
+			out[id] = evs
+		}
+	}
+	return out
+}
+
+// neverCleaned: proxy streams that were created but have not passed cleanStream
+func (t *c10TraceT) neverCleaned() map[uint64][]string {
+	t.mu.Lock()
+	defer t.mu.Unlock()
+	out := map[uint64][]string{}
+	for id, evs := range t.streams {
+		cl := false
+		for _, e := range evs {
+			if strings.HasPrefix(e, "cleanStream@") {
+				cl = true
+			}
+		}
+		if !cl {
+			out[id] = evs
+		}
+	}
+	return out
 }
 
 var c10Trace = &c10TraceT{ev: map[uint64][]string{}}
 
 func (t *c10TraceT) install() {
+	// proxy streams: id -> hook points passed
+	ph := func(name string, id uint64) {
+		t.mu.Lock()
+		if t.streams == nil {
+			t.streams = map[uint64][]string{}
+		}
+		t.streams[id] = append(t.streams[id], fmt.Sprintf("%s@%d", strings.TrimPrefix(name, "proxy."), time.Now().UnixNano()/1e6%1000000))
+		t.mu.Unlock()
+	}
+	for _, hp := range []string{"proxy.newActiveStream", "proxy.cleanStream", "proxy.giveStream", "proxy.downstream.OnResetStream", "proxy.waitNotify", "proxy.waitNotify.woken",
+		"proxy.upstream.OnReceive", "proxy.upstream.OnResetStream", "proxy.globalTimer.beforeCAS", "proxy.perTryTimer.beforeCAS"} {
+		verifhook.Set(hp, ph)
+	}
+	// HTTP/1 pool: per upstream connection id the request increments (with the stack that made them) and decrements
+	ih := func(name string, id uint64) {
+		st := ""
+		if strings.HasSuffix(name, ".inc") {
+			b := make([]byte, 6000)
+			b = b[:runtime.Stack(b, false)]
+			for _, l := range strings.Split(string(b), "\n") {
+				if strings.Contains(l, "pkg/proxy.") {
+					if i := strings.LastIndex(l, "("); i > 0 {
+						l = l[:i]
+					}
+					st += strings.TrimPrefix(strings.TrimSpace(l), "mosn.io/mosn/pkg/proxy.") + " < "
+				}
+			}
+		}
+		t.mu.Lock()
+		if t.h1 == nil {
+			t.h1 = map[uint64][]string{}
+		}
+		t.h1[id] = append(t.h1[id], fmt.Sprintf("%s@%d %s", strings.TrimPrefix(name, "http.pool.request."), time.Now().UnixNano()/1e6%1000000, st))
+		t.mu.Unlock()
+	}
+	verifhook.Set("http.pool.request.inc", ih)
+	verifhook.Set("http.pool.request.dec", ih)
 	h := func(name string, id uint64) {
 		t.mu.Lock()
 		t.ev[id] = append(t.ev[id], fmt.Sprintf("%s@%d", strings.TrimPrefix(name, "xprotocol.multiplex."), time.Now().UnixNano()/1e6%100000))
